@@ -1,3 +1,4 @@
+use crate::architecture::Endian;
 use crate::il::Expression as Expr;
 use crate::il::*;
 use crate::Error;
@@ -1058,14 +1059,29 @@ pub fn lw(
     Ok(())
 }
 
+/// Bit shift that lines the byte at `address` up with one end of a register for
+/// the unaligned word accesses. With k = address mod 4, lwl/swl (`left`) use
+/// 8 * k on big-endian and 8 * (3 - k) on little-endian CPUs; lwr/swr the opposite.
+fn partial_word_shift(address: &Expr, endian: &Endian, left: bool) -> Result<Expr, Error> {
+    let k = Expr::and(address.clone(), expr_const(3, 32))?;
+    let bytes = if (*endian == Endian::Big) == left {
+        k
+    } else {
+        Expr::sub(expr_const(3, 32), k)?
+    };
+    Expr::shl(bytes, expr_const(3, 32))
+}
+
 pub fn lwl(
     control_flow_graph: &mut ControlFlowGraph,
     instruction: &capstone::Instr,
+    endian: &Endian,
 ) -> Result<(), Error> {
     let detail = details(instruction)?;
 
     // get operands
     let dst = get_register(detail.operands[0].reg())?.scalar();
+    let rt = get_register(detail.operands[0].reg())?.expression();
     let base = get_register(detail.operands[1].mem().base)?.expression();
     let offset = expr_const(detail.operands[1].mem().disp as u64, 32);
 
@@ -1073,32 +1089,22 @@ pub fn lwl(
         let block = control_flow_graph.new_block()?;
 
         let address = Expr::add(base, offset)?;
+        let aligned = Expr::and(address.clone(), expr_const(0xffff_fffc, 32))?;
+        let shift = partial_word_shift(&address, endian, true)?;
 
-        // get the number of bits to clear
-        let bytes_to_clear = Expr::sub(
-            expr_const(4, 32),
-            Expr::and(expr_const(3, 32), address.clone())?,
-        )?;
-        let bits_to_clear = Expr::shl(bytes_to_clear, expr_const(3, 32))?;
-
-        // get the number of bytes to shift the result
-        let bytes_to_shift = Expr::and(expr_const(3, 32), address.clone())?;
-        let bits_to_shift = Expr::shl(bytes_to_shift, expr_const(3, 32))?;
-
+        // the aligned word containing the addressed byte
         let tmp = Scalar::temp(instruction.address, 32);
-        block.load(tmp.clone(), address);
+        block.load(tmp.clone(), aligned);
 
-        // clear the dst register by shifting left then right
-        let dst_expr = Expr::shl(dst.clone().into(), bits_to_clear.clone())?;
-        let dst_expr = Expr::shr(dst_expr, bits_to_clear)?;
+        // memory bytes fill rt from its most-significant end, the low `shift`
+        // bits of rt are kept
+        let keep = Expr::sub(
+            Expr::shl(expr_const(1, 32), shift.clone())?,
+            expr_const(1, 32),
+        )?;
+        let value = Expr::or(Expr::shl(tmp.into(), shift)?, Expr::and(rt, keep)?)?;
 
-        // zero out the right bits in the loaded word
-        let tmp = Expr::shl(Expr::shr(tmp.into(), bits_to_shift.clone())?, bits_to_shift)?;
-
-        // or together
-        let dst_expr = Expr::or(dst_expr, tmp)?;
-
-        block.assign(dst, dst_expr);
+        block.assign(dst, value);
 
         block.index()
     };
@@ -1112,41 +1118,36 @@ pub fn lwl(
 pub fn lwr(
     control_flow_graph: &mut ControlFlowGraph,
     instruction: &capstone::Instr,
+    endian: &Endian,
 ) -> Result<(), Error> {
     let detail = details(instruction)?;
 
     // get operands
     let dst = get_register(detail.operands[0].reg())?.scalar();
+    let rt = get_register(detail.operands[0].reg())?.expression();
     let base = get_register(detail.operands[1].mem().base)?.expression();
     let offset = expr_const(detail.operands[1].mem().disp as u64, 32);
 
     let block_index = {
         let block = control_flow_graph.new_block()?;
 
-        let address = Expr::sub(Expr::add(base, offset)?, expr_const(3, 32))?;
+        let address = Expr::add(base, offset)?;
+        let aligned = Expr::and(address.clone(), expr_const(0xffff_fffc, 32))?;
+        let shift = partial_word_shift(&address, endian, false)?;
 
-        // create a bit mask for dst and the loaded result
-        let mask_bytes = Expr::and(address.clone(), expr_const(3, 32))?;
-        let mask_bits = Expr::shl(mask_bytes, expr_const(3, 32))?;
-        let mask_bit = Expr::shl(expr_const(1, 32), mask_bits)?;
-        let mask = Expr::sub(mask_bit, expr_const(1, 32))?;
-
-        // load our word from memory
+        // the aligned word containing the addressed byte
         let tmp = Scalar::temp(instruction.address, 32);
-        block.load(tmp.clone(), address);
+        block.load(tmp.clone(), aligned);
 
-        // we want to and this word with our mask to remove the high bits
-        let temp = Expr::and(tmp.into(), mask.clone())?;
-
-        // and out the bits we're about to set in dst
-        let dst_expr = Expr::and(
-            dst.clone().into(),
-            Expr::sub(expr_const(0xffff_ffff, 32), mask)?,
+        // memory bytes fill rt from its least-significant end, the top `shift`
+        // bits of rt are kept
+        let keep = Expr::xor(
+            Expr::shr(expr_const(0xffff_ffff, 32), shift.clone())?,
+            expr_const(0xffff_ffff, 32),
         )?;
+        let value = Expr::or(Expr::shr(tmp.into(), shift)?, Expr::and(rt, keep)?)?;
 
-        let dst_expr = Expr::or(dst_expr, temp)?;
-
-        block.assign(dst, dst_expr);
+        block.assign(dst, value);
 
         block.index()
     };
@@ -2417,6 +2418,7 @@ pub fn sw(
 pub fn swl(
     control_flow_graph: &mut ControlFlowGraph,
     instruction: &capstone::Instr,
+    endian: &Endian,
 ) -> Result<(), Error> {
     let detail = details(instruction)?;
 
@@ -2429,38 +2431,23 @@ pub fn swl(
         let block = control_flow_graph.new_block()?;
 
         let address = Expr::add(base, offset)?;
+        let aligned = Expr::and(address.clone(), expr_const(0xffff_fffc, 32))?;
+        let shift = partial_word_shift(&address, endian, true)?;
 
         // load the value currently in memory
         let tmp = Scalar::temp(instruction.address, 32);
-        block.load(
-            tmp.clone(),
-            Expr::and(expr_const(0xffff_fffc, 32), address.clone())?,
-        );
+        block.load(tmp.clone(), aligned.clone());
 
-        // create a mask for our value
-        let mask_bytes = Expr::and(address.clone(), expr_const(3, 32))?;
-        // we want the opposite of the number of bytes we are storing
-        let mask_bytes = Expr::sub(expr_const(4, 32), mask_bytes)?;
-        let mask_bits = Expr::shl(mask_bytes, expr_const(3, 32))?;
-
-        let mask = Expr::sub(Expr::shl(expr_const(1, 32), mask_bits)?, expr_const(1, 32))?;
-
-        // and the loaded value with our mask
-        // this operation inverts the mask
-        let tmp = Expr::and(Expr::sub(expr_const(0xffff_ffff, 32), mask)?, tmp.into())?;
-
-        // figure out how many bits we should shift our value right
-        let shift_bytes = Expr::and(address.clone(), expr_const(3, 32))?;
-        let shift_bits = Expr::shl(shift_bytes, expr_const(3, 32))?;
-
-        // shift the value right
-        let rt = Expr::shr(rt, shift_bits)?;
-
-        // or them together
-        let expr = Expr::or(tmp, rt)?;
+        // the most-significant bytes of rt replace the bytes from the address
+        // to the end of the word, the top `shift` bits of the word are kept
+        let keep = Expr::xor(
+            Expr::shr(expr_const(0xffff_ffff, 32), shift.clone())?,
+            expr_const(0xffff_ffff, 32),
+        )?;
+        let word = Expr::or(Expr::shr(rt, shift)?, Expr::and(tmp.into(), keep)?)?;
 
         // store it back in memory
-        block.store(Expr::and(expr_const(0xffff_fffc, 32), address)?, expr);
+        block.store(aligned, word);
 
         block.index()
     };
@@ -2474,6 +2461,7 @@ pub fn swl(
 pub fn swr(
     control_flow_graph: &mut ControlFlowGraph,
     instruction: &capstone::Instr,
+    endian: &Endian,
 ) -> Result<(), Error> {
     let detail = details(instruction)?;
 
@@ -2485,32 +2473,24 @@ pub fn swr(
     let block_index = {
         let block = control_flow_graph.new_block()?;
 
-        let address = Expr::sub(Expr::add(base, offset)?, expr_const(3, 32))?;
+        let address = Expr::add(base, offset)?;
+        let aligned = Expr::and(address.clone(), expr_const(0xffff_fffc, 32))?;
+        let shift = partial_word_shift(&address, endian, false)?;
 
-        // create a bit mask for dst and the loaded result
-        let mask_bytes = Expr::and(address.clone(), expr_const(3, 32))?;
-        let mask_bits = Expr::shl(mask_bytes, expr_const(3, 32))?;
-        let mask_bit = Expr::shl(expr_const(1, 32), mask_bits)?;
-        let mask = Expr::sub(mask_bit, expr_const(1, 32))?;
-
-        // load our word from memory
+        // load the value currently in memory
         let tmp = Scalar::temp(instruction.address, 32);
-        block.load(tmp.clone(), address.clone());
+        block.load(tmp.clone(), aligned.clone());
 
-        // zero out the words we're about to set in dst
-        let dst_expr = Expr::and(
-            tmp.into(),
-            Expr::sub(expr_const(0xffff_ffff, 32), mask.clone())?,
+        // the least-significant bytes of rt replace the bytes from the start
+        // of the word to the address, the low `shift` bits of the word are kept
+        let keep = Expr::sub(
+            Expr::shl(expr_const(1, 32), shift.clone())?,
+            expr_const(1, 32),
         )?;
-
-        // zero out the bits we're not setting in rt
-        let rt = Expr::and(rt, mask)?;
-
-        // or the two together
-        let dst_expr = Expr::or(dst_expr, rt)?;
+        let word = Expr::or(Expr::shl(rt, shift)?, Expr::and(tmp.into(), keep)?)?;
 
         // store it back in memory
-        block.store(address, dst_expr);
+        block.store(aligned, word);
 
         block.index()
     };
